@@ -287,12 +287,15 @@ impl Counts {
             self.num_send_streams
         );
 
+        // A stream that has left the reset expiration queue is no longer a
+        // remembered reset, whether or not its RST_STREAM has been flushed.
+        if is_reset_counted && !stream.is_pending_reset_expiration() {
+            self.dec_num_reset_streams();
+        }
+
         if stream.is_closed() {
             if !stream.is_pending_reset_expiration() {
                 stream.unlink();
-                if is_reset_counted {
-                    self.dec_num_reset_streams();
-                }
             }
 
             if !stream.state.is_scheduled_reset() && stream.is_counted {
